@@ -7,6 +7,7 @@ mod min_items;
 mod min_length;
 mod minimum;
 mod multiple_of;
+mod number;
 mod regex;
 
 pub use chars_max_length::chars_max_length;
